@@ -105,45 +105,50 @@ bool trie_node_insert(trie * a, size_t s, const unsigned char * key, unsigned sh
 
 	size_t i;
 
-	if (key[0] == '\0') {
-		// We've hit end of key
-		n->match_type = match_type;
-		n->len = depth;
-		return true;		// Success
-	}
+	// Iterate rather than recurse, so that a long key cannot exhaust the call stack
+	while (key[0] != '\0') {
+		if (n->child[key[0]] != 0) {
+			// Character already in trie, advance forward
+			s = n->child[key[0]];
+		} else {
+			// Create new node
 
-	if (n->child[key[0]] != 0) {
-		// First character already in trie, advance forward
-		return trie_node_insert(a, n->child[key[0]], key + 1, match_type, ++depth);
-	} else {
-		// Create new node
+			// Ensure capacity
+			if (a->size == a->capacity) {
+				a->capacity *= 2;
+				a->node = realloc(a->node, a->capacity * sizeof(trie_node));
 
-		// Ensure capacity
-		if (a->size == a->capacity) {
-			a->capacity *= 2;
-			a->node = realloc(a->node, a->capacity * sizeof(trie_node));
+				// Set n to new location
+				n = &(a->node[s]);
+			}
 
-			// Set n to new location
-			n = &(a->node[s]);
+			// Current node points to next node
+			i = a->size;
+			n->child[key[0]] = i;
+
+			// Initialize new node to 0
+			n = &a->node[i];
+			memset(n, 0, sizeof(trie_node));
+
+			// Set char for new node
+			n->c = key[0];
+
+			// Incremement size
+			a->size++;
+
+			// Advance forward
+			s = i;
 		}
 
-		// Current node points to next node
-		i = a->size;
-		n->child[key[0]] = i;
-
-		// Initialize new node to 0
-		n = &a->node[i];
-		memset(n, 0, sizeof(trie_node));
-
-		// Set char for new node
-		n->c = key[0];
-
-		// Incremement size
-		a->size++;
-
-		// Advance forward
-		return trie_node_insert(a, i, key + 1, match_type, ++depth);
+		n = &a->node[s];
+		key++;
+		depth++;
 	}
+
+	// We've hit end of key
+	n->match_type = match_type;
+	n->len = depth;
+	return true;		// Success
 }
 
 
@@ -191,18 +196,19 @@ void Test_trie_insert(CuTest * tc) {
 
 
 size_t trie_node_search(trie * a, size_t s, const char * query) {
-	if (query[0] == '\0') {
-		// Found matching state
-		return s;
+	while (query[0] != '\0') {
+		if (a->node[s].child[(unsigned char)query[0]] == 0) {
+			// Failed to match
+			return -1;
+		}
+
+		// Partial match, keep going
+		s = a->node[s].child[(unsigned char)query[0]];
+		query++;
 	}
 
-	if (a->node[s].child[(unsigned char)query[0]] == 0) {
-		// Failed to match
-		return -1;
-	}
-
-	// Partial match, keep going
-	return trie_node_search(a, a->node[s].child[(unsigned char)query[0]], query + 1);
+	// Found matching state
+	return s;
 }
 
 
@@ -251,7 +257,8 @@ void Test_trie_search(CuTest * tc) {
 #endif
 
 
-void ac_trie_node_prepare(trie * a, size_t s, char * buffer, unsigned short depth, size_t last_match_state) {
+/// Determine the failure path for a single node, where buffer holds the `depth` characters that lead to it
+static void ac_trie_node_prepare(trie * a, size_t s, char * buffer, size_t depth) {
 
 	buffer[depth] = '\0';
 	buffer[depth + 1] = '\0';
@@ -280,17 +287,6 @@ void ac_trie_node_prepare(trie * a, size_t s, char * buffer, unsigned short dept
 
 		suffix++;
 	}
-
-
-	// Prepare children
-	for (int i = 0; i < 256; ++i) {
-		if ((n->child[i] != 0) &&
-				(n->child[i] != s)) {
-			buffer[depth] = i;
-
-			ac_trie_node_prepare(a, n->child[i], buffer, depth + 1, last_match_state);
-		}
-	}
 }
 
 /// Prepare trie for Aho-Corasick search algorithm by mapping failure connections
@@ -300,10 +296,49 @@ void ac_trie_prepare(trie * a) {
 		a->node[i].ac_fail = 0;
 	}
 
-	// Create a buffer to use
-	char buffer[a->capacity];
+	// Walk the trie depth first with an explicit stack -- the deepest node is at depth (size - 1),
+	// and a long search term must not exhaust the call stack
+	char * buffer = malloc(a->size + 2);				// Characters leading to the current node (plus two terminators)
+	size_t * state = malloc(sizeof(size_t) * a->size);	// Node at each depth
+	int * next_child = malloc(sizeof(int) * a->size);	// Next child to visit at each depth
 
-	ac_trie_node_prepare(a, 0, buffer, 0, 0);
+	if (buffer && state && next_child) {
+		size_t depth = 0;
+
+		state[0] = 0;
+		next_child[0] = 0;
+		ac_trie_node_prepare(a, 0, buffer, 0);
+
+		while (1) {
+			trie_node * n = &(a->node[state[depth]]);
+			int i = next_child[depth];
+
+			while (i < 256 &&
+					((n->child[i] == 0) || (n->child[i] == state[depth]))) {
+				i++;
+			}
+
+			if (i < 256) {
+				// Prepare child
+				next_child[depth] = i + 1;
+				buffer[depth] = i;
+
+				state[depth + 1] = n->child[i];
+				next_child[depth + 1] = 0;
+				depth++;
+
+				ac_trie_node_prepare(a, state[depth], buffer, depth);
+			} else if (depth == 0) {
+				break;
+			} else {
+				depth--;
+			}
+		}
+	}
+
+	free(buffer);
+	free(state);
+	free(next_child);
 }
 
 
